@@ -197,16 +197,38 @@ func (r *replicator) processOne(ctx context.Context, wg *sync.WaitGroup) error {
 	// wait for a process slot
 	e, err := r.waitForProcessSlot(ctx)
 	if err != nil {
+		// this worker was started for one queued item and will never process
+		// it: drop that item, otherwise it stays "added" forever and the
+		// replicator never becomes idle again
+		r.abandonOne()
 		return err
 	}
 
+	fetched := true
 	if err := r.processItems(ctx, wg, e); err != nil {
 		r.logger.Warn("process item ended", zap.Error(err))
+		fetched = false
 	}
 
 	// mark this process has done
-	r.processEntryDone(e)
+	r.processEntryDone(e, fetched)
 	return nil
+}
+
+// abandonOne removes one pending item from the queue on behalf of a worker
+// that could not get a process slot (cancelled request)
+func (r *replicator) abandonOne() {
+	r.muProcess.Lock()
+	defer r.muProcess.Unlock()
+
+	if r.queue.Len() > 0 {
+		item := r.queue.Next()
+		delete(r.tasks, item.GetHash())
+	}
+
+	if r.isIdle() {
+		r.idle()
+	}
 }
 
 // processItems process an entry then add to the queue every next entry
@@ -281,6 +303,14 @@ func (r *replicator) processHash(ctx context.Context, item processItem) ([]cid.C
 		return nil, fmt.Errorf("unable to fetch log: %w", err)
 	}
 
+	// the fetcher swallows fetch errors (missing block, cancelled context) and
+	// returns an empty log: report it, so that the hash is not recorded as fetched
+	if l.Len() == 0 {
+		if _, inLog := r.store.OpLog().Get(hash); !inLog {
+			return nil, fmt.Errorf("unable to fetch entry %s", hash.String())
+		}
+	}
+
 	r.muBuffer.Lock()
 	r.buffer = append(r.buffer, l)
 	r.muBuffer.Unlock()
@@ -331,13 +361,19 @@ func (r *replicator) waitForProcessSlot(ctx context.Context) (e processItem, err
 	return
 }
 
-func (r *replicator) processEntryDone(item processItem) {
+func (r *replicator) processEntryDone(item processItem, fetched bool) {
 	r.muProcess.Lock()
 
 	r.taskInProgress--
 
-	// remove hash from queued list
-	r.tasks[item.GetHash()] = stateFetched
+	if fetched {
+		// remove hash from queued list
+		r.tasks[item.GetHash()] = stateFetched
+	} else {
+		// the fetch failed or was cancelled: forget the hash, so that a later
+		// request for it is processed instead of being treated as already queued
+		delete(r.tasks, item.GetHash())
+	}
 
 	// if there no more task to proceed, trigger idle method
 	if r.isIdle() {
